@@ -844,6 +844,68 @@ def buckets(ctx, case, got):
         ctx.count("with-delay")
 
 
+# =============================================================================================
+# translator: the category table of the code under test (Generated/ClassifyTable.lean)
+# =============================================================================================
+KEYS = ["constant", "parameter", "input", "state"]
+CAT_LEAN = {"constants": ".const", "parameters": ".param", "inputs": ".input", "states": ".state", "alg_states": ".alg"}
+
+
+def probe_prefix_lists():
+    """All 16 subsets of the category-deciding prefixes, each in declaration order and reversed (32 lists;
+    index = bitmask over KEYS, then 16 + bitmask for the reversed spelling)."""
+    fw = [[k for j, k in enumerate(KEYS) if m >> j & 1] for m in range(16)]
+    return fw + [list(reversed(x)) for x in fw]
+
+
+def observe_category_table():
+    """Runs the real generator on one hand-built flat class with one Real variable per probe prefix list and reads off
+    the list each variable landed in (None: in no list / in several / generate raised)."""
+    H.quiet_pymoca()
+    from pymoca.backends.casadi import generator
+    pls = probe_prefix_lists()
+    spec = {"name": "Probe", "symbols": [{"name": "v%d" % i, "type": "Real", "prefixes": pl, "order": i, "dims": []}
+                                         for i, pl in enumerate(pls)], "equations": [], "initial_equations": []}
+    try:
+        model = generator.generate(build_ast_ext(spec), "Probe", None)
+        got = impl_lists(model)
+    except Exception:
+        return [(pl, None) for pl in pls]
+    out = []
+    for i, pl in enumerate(pls):
+        where = [k for k in CAT_LEAN if "v%d" % i in got[k]]
+        out.append((pl, where[0] if len(where) == 1 else None))
+    return out
+
+
+def translate(ctx):
+    """Regenerates Generated/ClassifyTable.lean from the behaviour of the sources under test; Props/C10.lean proves that the
+    table equals `catOf` on all 32 probes (`source_table_agrees`) and that `catOf` of ANY prefix list is the table entry of
+    its key set (`current_code_category`)."""
+    import os
+    from harness import common
+    tab = observe_category_table()
+
+    def ls(pl):
+        return "[" + ", ".join(json.dumps(x) for x in pl) + "]"
+    body = ",\n".join("  (%s, %s)" % (ls(pl), "some " + CAT_LEAN[c] if c else "none") for pl, c in tab)
+    text = ("import PymocaVerif.Model.Classify\n"
+            "/-! GENERATED by harness/props/c10.py (`translate`) from the behaviour of `Generator.exitClass` of the pymoca sources\n"
+            "    under test on one probe class (one Real variable per subset of the category-deciding prefixes, in both\n"
+            "    spellings); do not edit.  Regenerated (only when different) at the start of every C10 run. -/\n"
+            "namespace PymocaVerif.Generated.ClassifyTable\nopen PymocaVerif.Classify\n\n"
+            "/-- (prefix list of the probe variable, the list of `Model` it was placed in) -/\n"
+            "def observed : List (List String × Option Cat) := [\n" + body + "]\n\n"
+            "end PymocaVerif.Generated.ClassifyTable\n")
+    path = os.path.join(common.LEAN_DIR, "PymocaVerif", "Generated", "ClassifyTable.lean")
+    old = open(path).read() if os.path.exists(path) else None
+    if old != text:
+        with open(path, "w") as f:
+            f.write(text)
+    ctx.extra["translator"] = {"file": "Generated/ClassifyTable.lean", "probes": len(tab),
+                               "unplaced": sum(1 for _, c in tab if c is None)}
+
+
 def run(ctx):
     drv = ctx.driver("drv_c10")
     ctx.extra["lean_results"] = LEAN_RESULTS
